@@ -1,4 +1,4 @@
 SPECIFICATION Spec
-CONSTANTS Cap = 2 Sizes = {1, 3} Plans = {"absent", "ok", "fail_after_read", "fail_no_read", "killed", "empty", "garbage_no_read"} Tolerant = TRUE Export = TRUE
+CONSTANTS Cap = 2 Sizes = {1, 3} Plans = {"absent", "ok", "fail_after_read", "fail_no_read", "killed", "empty", "garbage_no_read", "garbage_after_read"} Tolerant = TRUE Export = TRUE
 INVARIANTS Safe FormattedOnlyIfComplete ExportInv
 PROPERTIES Returns
